@@ -485,8 +485,8 @@ Proof.
     destruct (copy_members n1 l) as [t n2] eqn:E2. inversion H; subst.
     destruct (copy_cell_spec _ _ _ _ E1) as [L1 I1]. destruct (IH _ _ _ E2) as (L2 & I2 & H2).
     split; [lia|]. split; [|cbn; now rewrite H2].
-    intros x Hx. cbn in Hx. apply in_app_iff in Hx as [Hx|Hx].
-    + apply I1 in Hx. lia.
+    intros x Hx. cbn [flat_map] in Hx. apply in_app_iff in Hx as [Hx|Hx].
+    + apply (I1 x) in Hx. lia.
     + apply I2 in Hx. lia.
 Qed.
 
@@ -498,11 +498,12 @@ Theorem copy_fresh n o : below n (all_locs o) ->
 Proof.
   intro B. cbn zeta.
   assert (A : atleast n (own_locs (fst (copy_obj n o)))).
-  { destruct o as [s|m]; cbn.
-    - unfold copy_sobj. destruct (copy_cell n (s_own s)) as [c n1] eqn:E. cbn.
+  { destruct o as [s|m]; unfold copy_obj.
+    - unfold copy_sobj. destruct (copy_cell n (s_own s)) as [c n1] eqn:E.
+      cbn [fst own_locs sobj_own_locs s_own].
       intros l Hl. apply (copy_cell_spec _ _ _ _ E) in Hl. lia.
     - destruct (copy_members n (m_members m)) as [ms n1] eqn:E1.
-      destruct (copy_cell n1 (m_own m)) as [c n2] eqn:E2. cbn.
+      destruct (copy_cell n1 (m_own m)) as [c n2] eqn:E2. cbn [fst own_locs m_own m_members].
       destruct (copy_members_spec _ _ _ _ E1) as (L1 & I1 & _).
       intros l Hl. apply in_app_iff in Hl as [Hl|Hl].
       + apply (copy_cell_spec _ _ _ _ E2) in Hl. lia.
@@ -536,9 +537,10 @@ Qed.
 Lemma pk_loc_spec n st l l' st' : memo_ok n st -> pk_loc st l = (l', st') ->
   memo_ok n st' /\ n <= l' < snd st' /\ snd st <= snd st'.
 Proof.
-  intros [L M]. unfold pk_loc. destruct (assoc l (fst st)) eqn:E; intro H; inversion H; subst.
+  destruct st as [m k]. intros [L M]. unfold pk_loc. cbn [fst snd] in *.
+  destruct (assoc l m) eqn:E; intro H; inversion H; subst; cbn [fst snd].
   - apply assoc_in in E. apply M in E. split; [split; auto|]. lia.
-  - cbn. split; [|lia]. split; [lia|]. intros a b [Hab|Hab].
+  - split; [|lia]. split; [cbn [snd]; lia|]. cbn [fst snd]. intros a b [Hab|Hab].
     + inversion Hab; subst. lia.
     + apply M in Hab. lia.
 Qed.
@@ -583,7 +585,7 @@ Proof.
   - destruct (pk_cell st c) as [c' st1] eqn:E1. destruct (pk_cells st1 cs) as [t st2] eqn:E2.
     inversion H; subst. destruct (pk_cell_spec _ _ _ _ _ K E1) as (K1 & L1 & I1).
     destruct (IH _ _ _ K1 E2) as (K2 & L2 & I2). split; [exact K2|]. split; [lia|]. intros x H0.
-    cbn in H0. apply in_app_iff in H0 as [Hx|Hx]; [apply I1 in Hx; lia | apply I2 in Hx; lia].
+    cbn [flat_map] in H0. apply in_app_iff in H0 as [Hx|Hx]; [apply (I1 x) in Hx; lia | apply (I2 x) in Hx; lia].
 Qed.
 
 Lemma pk_sobj_spec n st s s' st' : memo_ok n st -> pk_sobj st s = (s', st') ->
@@ -593,8 +595,8 @@ Proof.
   destruct (pk_cells st1 (s_holes s)) as [hs st2] eqn:E2. intro H; inversion H; subst.
   destruct (pk_cell_spec _ _ _ _ _ K E1) as (K1 & L1 & I1).
   destruct (pk_cells_spec _ _ _ _ _ K1 E2) as (K2 & L2 & I2). split; [exact K2|]. split; [lia|].
-  intros x H0. unfold sobj_locs in H0. cbn in H0. apply in_app_iff in H0 as [Hx|Hx];
-    [apply I1 in Hx; lia | apply I2 in Hx; lia].
+  intros x H0. unfold sobj_locs in H0. cbn [s_own s_holes] in H0. apply in_app_iff in H0 as [Hx|Hx];
+    [apply (I1 x) in Hx; lia | apply (I2 x) in Hx; lia].
 Qed.
 
 Lemma pk_sobjs_spec n l : forall st r st', memo_ok n st -> pk_sobjs st l = (r, st') ->
@@ -605,7 +607,7 @@ Proof.
   - destruct (pk_sobj st s) as [s' st1] eqn:E1. destruct (pk_sobjs st1 l) as [t st2] eqn:E2.
     inversion H; subst. destruct (pk_sobj_spec _ _ _ _ _ K E1) as (K1 & L1 & I1).
     destruct (IH _ _ _ K1 E2) as (K2 & L2 & I2). split; [exact K2|]. split; [lia|]. intros x H0.
-    cbn in H0. apply in_app_iff in H0 as [Hx|Hx]; [apply I1 in Hx; lia | apply I2 in Hx; lia].
+    cbn [flat_map] in H0. apply in_app_iff in H0 as [Hx|Hx]; [apply (I1 x) in Hx; lia | apply (I2 x) in Hx; lia].
 Qed.
 
 Theorem pickle_fresh n o : below n (all_locs o) ->
@@ -615,14 +617,14 @@ Proof.
   intro B. cbn zeta.
   assert (K0 : memo_ok n ([], n)) by (split; [cbn; lia | intros ? ? []]).
   assert (A : atleast n (all_locs (fst (pickle_obj n o)))).
-  { destruct o as [s|m]; cbn.
-    - destruct (pk_sobj ([], n) s) as [s' st] eqn:E. cbn.
+  { destruct o as [s|m]; unfold pickle_obj.
+    - destruct (pk_sobj ([], n) s) as [s' st] eqn:E. cbn [fst all_locs].
       intros l Hl. apply (pk_sobj_spec _ _ _ _ _ K0 E) in Hl. lia.
     - destruct (pk_cell ([], n) (m_own m)) as [c st1] eqn:E1.
-      destruct (pk_sobjs st1 (m_members m)) as [ms st2] eqn:E2. cbn.
+      destruct (pk_sobjs st1 (m_members m)) as [ms st2] eqn:E2. cbn [fst all_locs m_own m_members].
       destruct (pk_cell_spec _ _ _ _ _ K0 E1) as (K1 & L1 & I1).
       destruct (pk_sobjs_spec _ _ _ _ _ K1 E2) as (K2 & L2 & I2).
-      intros l Hl. apply in_app_iff in Hl as [Hl|Hl]; [apply I1 in Hl | apply I2 in Hl]; lia. }
+      intros l Hl. apply in_app_iff in Hl as [Hl|Hl]; [apply (I1 l) in Hl | apply (I2 l) in Hl]; lia. }
   split; [exact A|]. intros l Hl Hin. apply A in Hl. apply B in Hin. lia.
 Qed.
 
